@@ -107,7 +107,7 @@ func newC20sH() *c20sH {
 		for _, sec := range c.Secrets {
 			secrets[sec.Name] = sec
 		}
-		cfg, err := config.For(config.ClusterResources{Pools: c.Pools, L2Advs: c.L2Advs, BGPAdvs: c.BGPAdvs, Peers: c.Peers, Communities: c.Comms, Nodes: nodes, PasswordSecrets: secrets}, config.DontValidate)
+		cfg, err := config.For(config.ClusterResources{Pools: c.Pools, L2Advs: c.L2Advs, BGPAdvs: c.BGPAdvs, Peers: c.Peers, Communities: c.Comms, Nodes: nodes, PasswordSecrets: secrets, BFDProfiles: c.BFDs}, config.DontValidate)
 		if err != nil {
 			panic(err)
 		}
